@@ -192,4 +192,23 @@ example : ∃ E : OdeEnv ℚ, OdeHyp E ∧ E.dense = false ∧
   · intro t; simp [OdeEnv.hminAt, ratO, ratFld]; norm_num
   · decide +kernel
 
+/-- fixed-step mode (`fix_h=True`, the mode the order ladders of C07 run in), exact arithmetic: a step never passes tend; it is the
+requested step h except for the last one, which is the remainder and ends at tend itself (before the repair every step was h and the
+run ended only if the grid hit tend to within uround) -/
+theorem C09_fixed_step_ends_at_tend (E : RodasEnv ℚ) (hO : E.O = ratO) (hf : E.opt.fixH = true) (h : ℚ)
+    (hh : E.opt.hinit = some h) (hpos : 0 < h) (hs : 1 ≤ E.fixSlack) (s : RodasState ℚ) :
+    s.t + E.stepDt s ≤ E.tend ∧ (E.isLast s = true → E.stepDt s = E.tend - s.t ∧ (E.advance s).t = E.tend) ∧
+      (E.isLast s = false → E.stepDt s = h ∧ s.t + h < E.tend) := by
+  have hsub : ∀ a b : ℚ, E.O.sub a b = a - b := by intro a b; rw [hO]; rfl
+  have hadd : ∀ a b : ℚ, E.O.add a b = a + b := by intro a b; rw [hO]; rfl
+  have hmul : ∀ a b : ℚ, E.O.mul a b = a * b := by intro a b; rw [hO]; rfl
+  have hle : ∀ a b : ℚ, E.O.le a b = decide (a ≤ b) := by intro a b; rw [hO]; rfl
+  simp only [RodasEnv.stepDt, RodasEnv.isLast, RodasEnv.fixLast, RodasEnv.advance, hf, hh, if_true, Option.getD_some, hsub, hadd, hmul, hle]
+  by_cases hl : E.tend ≤ s.t + h * E.fixSlack
+  · simp [hl]
+  · have h1 : s.t + h * E.fixSlack < E.tend := not_le.mp hl
+    have h2 : h ≤ h * E.fixSlack := by nlinarith
+    simp [hl]
+    constructor <;> linarith
+
 end Solverz
